@@ -126,7 +126,7 @@ def membership_replay(ctx):
         raise vlib.NoVerdict("binding self-test failed: an extra member after the snapshot was accepted")
 
 
-def catalogue_replay(ctx):
+def catalogue_replay(ctx, only=None):
     """Catalogue!Agree / SnapOK on the real storage.DatasetManager: random logs of create / delete / add-node /
     remove-node entries applied to three managers - whole log; prefix + snapshot of a later index + rest; snapshot
     + rest - which must end with the same catalogue (CatalogueReplayTrace)."""
@@ -139,6 +139,9 @@ def catalogue_replay(ctx):
     by = {}
     for x in v:
         e = evs[x[0]]
+        # a replica's raft store torn down by a catalogue snapshot is a matter of durability (C03), the rest of the catalogue (C14)
+        if (x[1] == "ReplicaStoreLost") != (only == "ReplicaStoreLost"):
+            continue
         by.setdefault("%s@catalogue-replay" % x[1], []).append(e)
     for sig in sorted(by):
         e = min(by[sig], key=lambda z: len(z["log"]))
@@ -146,6 +149,19 @@ def catalogue_replay(ctx):
                     % (sig, e["log"], e["cut"], e["snapat"], json.dumps(e["a"])[:300], json.dumps(e["b"])[:300], json.dumps(e["c"])[:300], len(by[sig])), {"event": e})
     ctx.log("%d catalogue logs on three real DatasetManagers (replay / prefix+snapshot / snapshot): %d failed checks" % (n, len(v)))
     ctx.cov["catalogue_logs_replayed"] = n
+    ctx.cov["replica_stores_observed_across_restore"] = sum(len(e["kept"]) for e in evs)
+    if only == "ReplicaStoreLost":
+        mut = json.loads(json.dumps([e for e in evs if e["kept"]][:5]))
+        if not mut:
+            raise vlib.NoVerdict("no log in which the follower keeps hosting a replica across the snapshot")
+        mut[0]["kept"][0]["after"] = 0
+        p = ctx.path("selfkept.ndjson")
+        open(p, "w").writelines(json.dumps(e) + "\n" for e in mut)
+        v2, _ = vlib.validate_trace(ctx, "CatalogueReplayTrace", "CatalogueReplayTrace.cfg", p, lambda l: True)
+        ctx.cov["binding_selftest"]["emptied_replica_store_rejected"] = any(x[1] == "ReplicaStoreLost" for x in v2)
+        if not ctx.cov["binding_selftest"]["emptied_replica_store_rejected"]:
+            raise vlib.NoVerdict("binding self-test failed: an emptied replica store was accepted")
+        return
     # binding self-test: a follower with a replica too many must be rejected
     mut = json.loads(json.dumps(evs[:30]))
     done = False
